@@ -271,3 +271,20 @@ func chunkStats(sg *gen.Seg) chunkInfo {
 func pick(r *rand.Rand, xs ...int) int { return xs[r.Intn(len(xs))] }
 
 func hashAny(parts ...interface{}) uint64 { return runner.Hash(parts...) }
+
+// usable returns the world a reader-side check works on: the complete one or, after a construction
+// step failed (noted: it is C01/C02/C04's business and makes the run inconclusive unless a violation
+// is found), the segments that were built before the failure.
+func usable(c *runner.Ctx, w *gen.World, err error) *gen.World {
+	if err == nil {
+		return w
+	}
+	c.Note(fmt.Sprintf("case %d: world construction failed (C01/C02/C04's business): %s", c.Idx, firstLine(err.Error())))
+	if w != nil && len(w.Segs) > 0 {
+		return w
+	}
+	if w != nil {
+		w.Close()
+	}
+	return nil
+}
